@@ -42,7 +42,7 @@ TIERS = {
 }
 REACH_PROBES = ["cancel_landed", "cancel_in_done_callback", "cancel_during_executor", "cancel_in_wait_until", "cancel_in_blocking_service_call",
                 "cancel_in_sleep", "cancel_before_first_step", "cancel_after_end", "raising_callback_then_other",
-                "waiter_saw_cancelled", "callback_removed"]
+                "waiter_saw_cancelled", "callback_removed", "cancel_by_unique_takeover", "takeover_before_claim"]
 SHRINK_LISTS = [["spec", "progs"], ["spec", "progs", "*", "steps"]]
 GRID = 0.25
 CB_KINDS = ["plain", "sleep", "raise"]
@@ -91,7 +91,11 @@ def gen(rng: random.Random, tier: str) -> dict:
         progs.append({"tid": tid, "entry": rng.choice(["service", "service", "trigger", "create"]),
                       "steps": _gen_steps(rng, tid == victim), "ret": rng.randint(100, 199), "k": rng.choice([0, 0, 1, 2])})
     spec = {"progs": progs, "victim": victim, "waiter": rng.random() < 0.5}
-    fault = {"mode": "enumerate", "via": rng.choice(["reaper", "reaper", "raw"]), "iter": None}
+    # how the cancellation is delivered: pyscript's reaper, a raw Task.cancel(), or another task taking over one of
+    # the two unique names the victim owns (task.unique kills the previous owner)
+    fault = {"mode": "enumerate", "via": rng.choice(["reaper", "reaper", "raw", "takeover"]), "iter": None}
+    if fault["via"] == "takeover" and not any(s[0] == "unique" for s in progs[victim]["steps"]):
+        progs[victim]["steps"].insert(0, ["unique"])
     return {"cfg": cfg, "spec": spec, "fault": fault, "ops": [], "max_points": TIERS[tier]["max_points"]}
 
 
@@ -141,7 +145,9 @@ def render(scn: dict) -> dict:
             elif step[0] == "remove_cb":
                 lines.append(f"    task.remove_done_callback(task.current_task(), cb_{step[1]})")
             elif step[0] == "unique":
+                # two names: a task may own several; all of them are released when it ends, however it ends
                 lines.append(f"    task.unique('u{tid}')")
+                lines.append(f"    task.unique('w{tid}')")
             elif step[0] == "wait_until":
                 lines.append(f"    wr = task.wait_until(event_trigger='never_{tid}', timeout={step[1]})")
                 lines.append(f"    sim.mark('p', {tid}, 'wu', {idx}, tt=wr['trigger_type'])")
@@ -160,6 +166,10 @@ def render(scn: dict) -> dict:
         "def helper_svc(d=None, who=None):",
         "    task.sleep(d)",
         "    sim.mark('helper', who)",
+        "",
+        "@service",
+        "def takeover(name=None):",
+        "    task.unique(name)",
         "",
         "@service",
         "def spawn(tid=None):",
@@ -265,6 +275,15 @@ def execute(scn: dict, k_cancel: int | None) -> dict:
             w.probe("cancel_in_blocking_service_call")
         if via == "reaper":
             Function.reaper_cancel(task)
+        elif via == "takeover":
+            if not obs["victim"].get("owns"):
+                info["done"] = "name_not_owned"  # nothing to take over yet: no cancellation is requested
+                w.probe("takeover_before_claim")
+                return
+            import asyncio
+
+            w.probe("cancel_by_unique_takeover")
+            asyncio.ensure_future(w.call_service("pyscript", "takeover", {"name": f"u{vic}"}, blocking=False))
         else:
             task.cancel()
 
@@ -285,6 +304,8 @@ def execute(scn: dict, k_cancel: int | None) -> dict:
                     obs["victim"]["last_step"] = progs[vic]["steps"][args[3]]
                 elif what in ("post", "end"):
                     obs["victim"]["last_step"] = ["between"]
+                    if what == "post" and progs[vic]["steps"][args[3]][0] == "unique":
+                        obs["victim"]["owns"] = True
         elif args[0] == "cb" and rec["task"] == obs["victim"].get("label"):
             obs["victim"]["last_iter"] = w.loop.iterations
             obs["victim"]["in_cb"] = True
